@@ -4,7 +4,7 @@
 
 use serde_json::{json, Value as J};
 use sha3::{Digest, Keccak256};
-use soroban_sdk::testutils::{Address as _, Events as _, Ledger as _, MockAuthContract};
+use soroban_sdk::testutils::{Address as _, Ledger as _, MockAuthContract};
 use soroban_sdk::xdr;
 use soroban_sdk::{Address, Bytes, BytesN, Env, IntoVal, String as SStr, Symbol, TryFromVal, Val, Vec as SVec};
 use std::collections::BTreeMap;
@@ -163,14 +163,37 @@ impl Ctx {
         r
     }
 
-    /// Events (contract, topics, data) emitted since the last call to `take_events`.
-    pub fn take_events(&mut self) -> Vec<(Address, SVec<Val>, Val)> {
-        let all = self.env.events().all();
-        let n = all.len();
+    /// Contract events emitted since the last call, WITHOUT those of calls that failed and were rolled
+    /// back (the test host keeps them, flagged `failed_call`; on chain they are never published).
+    fn committed_events(&self) -> (Vec<(Address, SVec<Val>, Val)>, u32) {
+        let env = &self.env;
+        let all = env.host().get_events().unwrap().0;
+        let n = all.len() as u32;
         let mut out = vec![];
-        for i in self.ev_seen..n {
-            out.push(all.get(i).unwrap());
+        for (i, e) in all.into_iter().enumerate() {
+            if (i as u32) < self.ev_seen || e.failed_call {
+                continue;
+            }
+            if let xdr::ContractEvent {
+                type_: xdr::ContractEventType::Contract,
+                contract_id: Some(contract_id),
+                body: xdr::ContractEventBody::V0(xdr::ContractEventV0 { topics, data }),
+                ..
+            } = e.event
+            {
+                let addr = Address::try_from_val(env, &xdr::ScVal::Address(xdr::ScAddress::Contract(contract_id))).unwrap();
+                let mut tv: SVec<Val> = SVec::new(env);
+                for t in topics.iter() {
+                    tv.push_back(Val::try_from_val(env, t).unwrap());
+                }
+                let dv = Val::try_from_val(env, &data).unwrap();
+                out.push((addr, tv, dv));
+            }
         }
+        (out, n)
+    }
+    pub fn take_events(&mut self) -> Vec<(Address, SVec<Val>, Val)> {
+        let (out, n) = self.committed_events();
         self.ev_seen = n;
         out
     }
@@ -179,7 +202,7 @@ impl Ctx {
     }
     fn ev_reset(&mut self, _mark: u32) {
         // queries must not hide events: everything up to now counts as seen
-        self.ev_seen = self.env.events().all().len();
+        self.ev_seen = self.env.host().get_events().unwrap().0.len() as u32;
     }
 
     pub fn set_time(&self, t: u64) {
